@@ -36,16 +36,18 @@ def handle (op : String) (a : Json) : Except String Json := do
        | none => ["fault-free"])
     return ok (Json.mkObj [("replies", arr (s.replies.map fun r => Json.str (replyName r))), ("resultsStored", toJson s.resultsStored),
       ("stopSent", toJson s.stopSent), ("outcome", Json.str (outcomeName (outcome s)))]) tags
-  | "poll" =>
-    let sd ← a.getObjValAs? Bool "start_driving"
-    let c ← a.getObjValAs? Bool "cancel"
+  | "poll" | "poll-task-executor" =>
     let f ← match (← a.getObjValAs? String "future") with
       | "none" => pure Fut.none | "running" => pure Fut.running | "done-ok" => pure Fut.doneOk | "done-exc" => pure Fut.doneExc
       | x => throw s!"unknown future state {x}"
     let name : PollAct → String
       | .clearStartDriving => "clear-start-driving" | .drive => "drive" | .shipSamples => "ship-samples" | .sendCancelled => "send-cancelled"
-      | .sendFailure => "send-failure" | .clearFuture => "clear-future" | .rearm => "rearm"
-    let acts := poll sd c f
+      | .sendFailure => "send-failure" | .clearFuture => "clear-future" | .rearm => "rearm" | .sendReady => "send-ready"
+    let acts ← if op == "poll" then do
+        let sd ← a.getObjValAs? Bool "start_driving"
+        let c ← a.getObjValAs? Bool "cancel"
+        pure (poll sd c f)
+      else pure (pollTaskExecutor f)
     return ok (arr (acts.map fun x => Json.str (name x))) (acts.filter (·.isOutcome) |>.map name)
   | _ => throw s!"unknown op {op}"
 
